@@ -30,6 +30,18 @@ pub fn net_in_req(n: Network) -> NetworkInRequest {
     n.into()
 }
 
+/// one of the two spellings of a network in a request (`Mainnet` / `mainnet`, ...) and its protocol token
+pub fn net_spelled(n: Network, lower: bool) -> (NetworkInRequest, &'static str) {
+    match (n, lower) {
+        (Network::Mainnet, false) => (NetworkInRequest::Mainnet, "Mainnet"),
+        (Network::Mainnet, true) => (NetworkInRequest::mainnet, "mainnet"),
+        (Network::Testnet, false) => (NetworkInRequest::Testnet, "Testnet"),
+        (Network::Testnet, true) => (NetworkInRequest::testnet, "testnet"),
+        (Network::Regtest, false) => (NetworkInRequest::Regtest, "Regtest"),
+        (Network::Regtest, true) => (NetworkInRequest::regtest, "regtest"),
+    }
+}
+
 thread_local! {
     static MEMORY_SNAPSHOTS: std::cell::RefCell<std::collections::HashMap<&'static str, Vec<u8>>> = std::cell::RefCell::new(std::collections::HashMap::new());
     pub static IN_GUARD: std::cell::Cell<u32> = const { std::cell::Cell::new(0) };
@@ -482,6 +494,14 @@ pub fn get_info() -> String {
 pub fn get_fees(network: Network) -> String {
     let req = GetCurrentFeePercentilesRequest { network: net_in_req(network) };
     match guarded(|| can::get_current_fee_percentiles(req)) {
+        Err(_) => "trap".into(),
+        Ok(v) => format!("[{}]", v.iter().map(|x| x.to_string()).collect::<Vec<_>>().join(",")),
+    }
+}
+
+/// the fee rates ranked by `get_current_fee_percentiles` if it looked at `n` transactions (hook)
+pub fn get_fee_rates(n: u32) -> String {
+    match guarded(|| can::verif_hooks::fees_per_byte(n)) {
         Err(_) => "trap".into(),
         Ok(v) => format!("[{}]", v.iter().map(|x| x.to_string()).collect::<Vec<_>>().join(",")),
     }
